@@ -1116,3 +1116,75 @@ def lemma_is_same_file(ctx):
         ctx.lemma(eng, "C03: is_same_file answers exactly 'same inode number and same device', each read from its own path", p.pc, r.t == same)
     (ctx.passed if n_ok else ctx.fail)("witness: is_same_file success path", "")
     ctx.bounds = "loop-free; both paths arbitrary, every stat may fail"
+
+
+def lemma_copy_xattr(ctx):
+    """copy_xattr: every attribute the source lists is offered to the destination, whatever happens to the others (C10).
+    One attribute that cannot be set (security.* as non-root, a value too large for the destination) must not cost the rest."""
+    from summaries import list_iter
+    eng = ctx.engine("libfs", loop_bound=4)
+    install_log_off(eng)
+    S = eng.add_summary
+    attrs = [OpaqueV("OsString", "attr0"), OpaqueV("OsString", "attr1")]
+
+    def s_list(eng, st, callee, args, dty):
+        return [Outcome(ok(list_iter(list(attrs))), events=[Event("list_xattr", [file_id(args[0], eng, st)], "ok")]),
+                Outcome(err("std::io::Error"), events=[Event("list_xattr", [file_id(args[0], eng, st)], "err")])]
+    S(r"FileExt>::list_xattr$", s_list)
+
+    def nm(eng, st, v):
+        v = deref_ref(eng, st, v)
+        return getattr(v, "name", repr(v))
+
+    def s_get(eng, st, callee, args, dty):
+        a = nm(eng, st, args[1])
+        val = OpaqueV("Vec<u8>", "value_of_" + a, {"items": []})
+        who = file_id(args[0], eng, st)
+        return [Outcome(ok(AggV("Option", 1, [val], "Some")), events=[Event("get_xattr", [who, a], "some")]),
+                Outcome(ok(AggV("Option", 0, [], "None")), events=[Event("get_xattr", [who, a], "none")]),
+                Outcome(err("std::io::Error"), events=[Event("get_xattr", [who, a], "err")])]
+    S(r"FileExt>::get_xattr::<", s_get)
+
+    def s_set(eng, st, callee, args, dty):
+        a = nm(eng, st, args[1])
+        who = file_id(args[0], eng, st)
+        return [Outcome(ok(), events=[Event("set_xattr", [who, a], "ok")]), Outcome(err("std::io::Error"), events=[Event("set_xattr", [who, a], "err")])]
+    S(r"FileExt>::set_xattr::<", s_set)
+    S(r"^Vec::<u8>::as_slice$|^<Vec<u8> as Deref>::deref$", lambda e, st, c, a, d: Outcome(a[0]))
+    fn = fn_named(eng.funcs, "copy_xattr")
+    paths = eng.run(fn.name, [RefV(Cell(OpaqueV("std::fs::File", "infd"))), RefV(Cell(OpaqueV("std::fs::File", "outfd")))], State())
+    ctx.paths += len(paths)
+    seen_partial = 0
+    for p in paths:
+        names = trace_names(p)
+        if p.status != "return":
+            ctx.fail("copy_xattr: path ends in return", "%s %s %s" % (p.status, p.msg, names))
+            continue
+        ls = [e for e in p.trace if e.name == "list_xattr"]
+        if not ls or ls[0].ret != "ok":
+            continue
+        gets = {e.args[1]: e for e in p.trace if e.name == "get_xattr"}
+        sets = {e.args[1]: e for e in p.trace if e.name == "set_xattr"}
+        for e in list(gets.values()) + list(sets.values()):
+            want = "infd" if e.name == "get_xattr" else "outfd"
+            if e.args[0] != want:
+                ctx.fail("C10: extended attributes are read from the source and written to the destination", repr(e.args))
+        failed_set = [a for a, e in sets.items() if e.ret == "err"]
+        failed_get = [a for a, e in gets.items() if e.ret == "err"]
+        if failed_set and not failed_get:
+            seen_partial += 1
+            missing = [a.name for a in attrs if a.name not in gets]
+            unset = [a for a, e in gets.items() if e.ret == "some" and a not in sets]
+            if missing or unset:
+                ctx.fail("C10: an attribute that cannot be set does not stop the remaining attributes from being copied",
+                         "failed: %s; never looked at: %s; read but not set: %s" % (failed_set, missing, unset), key="xattr:first-failure-stops-the-rest")
+            else:
+                ctx.passed("C10: an attribute that cannot be set does not stop the remaining attributes from being copied")
+            (ctx.passed if is_err(p.ret) else ctx.fail)("C04/C10: a failed set_xattr is reported to the caller (which warns)", str(names))
+        if not failed_set and not failed_get and is_ok(p.ret):
+            for a in attrs:
+                g = gets.get(a.name)
+                if g is None or (g.ret == "some" and a.name not in sets):
+                    ctx.fail("C10: every listed attribute with a value is set on the destination", str(names))
+    (ctx.passed if seen_partial else ctx.fail)("witness: a path where one set_xattr fails", "")
+    ctx.bounds = "two listed attributes; each get may yield a value, nothing or an error; each set may fail"
